@@ -65,10 +65,10 @@ pub fn all() -> Vec<CheckSpec> {
             runs_quick: 20000,
             runs_thorough: 3000000,
             run: e1::run_c09,
-            rule: "one run = either (3 in 4) one drawn workload (2-D render, 3-D render or octree mesh) executed once sequentially, 2-3 times on simulated pools (size 1..=16, drawn split tree, item interleaving, stop-flag visibility) and 3 times with a drawn cancel instant (before the call, before executor item j, before poll j, never; pool and no-pool). Results must equal the sequential one bit for bit; cancel clauses as in DESIGN 5/C09; one pool execution in four is preemptive (segments on baton-passing OS threads, hand-over at sched points inside the interpreter loops and before native calls); or (1 in 4) E5: 2-4 logical threads share the tapes of one function and run drawn operation lists (point/interval/float-slice incl. sub-SIMD lengths/grad-slice/simplify+recycle) on the preemptive executor, each compared with its solo results. distinct_nontrivial = distinct schedule signatures (pool size, split tree, execution order, stop visibility, cancel position) among executions with >=2 segments or a fired cancel",
+            rule: "one run = either (3 in 4) one drawn workload (2-D render, 3-D render or octree mesh) executed once sequentially, 2-3 times on simulated pools (size 1..=16, drawn split tree, item interleaving, stop-flag visibility) and 3 times with a drawn cancel instant (before the call, before executor item j, before poll j, never; pool and no-pool). Results must equal the sequential one bit for bit; cancel clauses as in DESIGN 5/C09; one pool execution in four is preemptive (segments on baton-passing OS threads, hand-over at sched points inside the interpreter loops and before native calls); or (1 in 4) E5: 2-4 logical threads share the tapes of one function and run drawn operation lists (point/interval/float-slice incl. sub-SIMD lengths/grad-slice/simplify+recycle) on the preemptive executor, each compared with its solo results (one in six of these runs is E6 instead: two real threads of a ptrace-traced child, thread A frozen at a drawn synchronising machine instruction while thread B runs its whole list). distinct_nontrivial = distinct schedule signatures (pool size, split tree, execution order, stop visibility, cancel position) among executions with >=2 segments or a fired cancel",
             assumptions: &[
                 "item-granular interleaving plus exact cancel placement covers every distinguishable schedule because tasks share only immutable data and read the cancel flag only at hook points (DESIGN 3.2 S1/S2)",
-                "preemption inside one native JIT call is not simulated",
+                "preemption inside one native JIT call: only by E6 (one preemption of thread A per execution, at or near a synchronising instruction)",
                 "ThreadPool::Custom (rayon install) is not on the simulated path",
             ],
             real_components: REAL,
